@@ -91,7 +91,16 @@ def run(chk):
     for ln, n in ((3, 500), (4, 500)) if chk.tier == "quick" else ((4, 20000), (5, 10000)):
         for _ in range(n):
             hdr.add(ln * 10000000 + rnd.randrange(16 ** ln))
-    res3 = common.run_tlc("FamMutate", "FamMutate.cfg", defines={"TIER": chk.tier, "EDITS1": tlaset(e1), "EDITS2": tlaset(e2), "HEADERS": tlaset(hdr)}, timeout=1800)
+    # headers after a keyword and a name, with bodies that use the parameter in every expression and statement form
+    hdr2 = set()
+    for ln in range(0, 4):
+        for c in range(16 ** ln):
+            hdr2.add(ln * 10000000 + c)
+    if chk.tier != "quick":
+        for _ in range(8000):
+            hdr2.add(4 * 10000000 + rnd.randrange(16 ** 4))
+    res3 = common.run_tlc("FamMutate", "FamMutate.cfg", defines={"TIER": chk.tier, "EDITS1": tlaset(e1), "EDITS2": tlaset(e2), "HEADERS": tlaset(hdr),
+                                                                 "HEADERS2": tlaset(hdr2)}, timeout=1800)
     chk.add_tlc(res3, "FamMutate")
     for n, c in enumerate(res3.cases):
         cases.append({"id": "mut-%d" % n, "stage": "parsetotal", "src": c["src"],
@@ -115,7 +124,8 @@ def run(chk):
                 "digit, dot, quote, backslash, operators, a non-letter symbol) plus %d seed-chosen strings of length %d and the texts of "
                 "repository .evy files, token kinds/offsets/lines/columns from EvyLexer.tla; parser: every deletion, transposition and "
                 "prefix, and (sampled in quick, all in thorough) insertions/substitutions from a 40-token vocabulary at every piece of three "
-                "seed programs, pairs of edits, and %d binary / truncated / deeply nested inputs; non-trivial = distinct input"
+                "seed programs, pairs of edits, every sequence of up to 3 header tokens after `func f`, `func f:num`, `on key`, `on down` with bodies that use the "
+                "parameter in every expression and statement form, and %d binary / truncated / deeply nested inputs; non-trivial = distinct input"
                 % (maxlen, nsample, slen, len(BINARY)))
     chk.exhaustive = False
     chk.assumptions += ["token extents of malformed stretches (several dots in a number, bad escape, unterminated string, CR, NUL) are not prescribed, their positions are",
